@@ -60,16 +60,48 @@ def kf7_unbound_offset(spec, name):
     return False
 
 
+def kf8_merger_dynamic(spec, name):
+    """KF-8: the metrics dump of a Merger bound to a DYNAMICALLY partitioned
+    tensor reads <Tensor>_<init-ranks>, a variable that is only bound inside
+    the loop nest (unbound when an enclosing loop runs zero times)."""
+    if not spec.extra or "Merger" not in spec.extra and "merger" not in spec.extra:
+        return False
+    try:
+        from ruamel.yaml import YAML
+        d = YAML(typ="safe", pure=True).load(spec.extra)
+    except Exception:
+        return False
+    for einsum, items in (d.get("bindings") or {}).items():
+        parts = (spec.partitioning or {}).get(einsum) or {}
+        dyn = [r for r, ds in parts.items() if any(x.startswith("uniform_occupancy") for x in ds)]
+        for it in items or []:
+            for b in it.get("bindings") or []:
+                if isinstance(b, dict) and "init-ranks" in b and "tensor" in b:
+                    if name == b["tensor"] + "_" + "".join(b["init-ranks"]):
+                        if any(any(lvl.startswith(r) for r in dyn) for lvl in b["init-ranks"]):
+                            return True
+    return False
+
+
+def name_kf(spec, name):
+    """Which known finding (if any) explains an unbound name."""
+    if kf5_unbound_level_size(spec, name):
+        return "KF-5"
+    if kf7_unbound_offset(spec, name):
+        return "KF-7"
+    if kf8_merger_dynamic(spec, name):
+        return "KF-8"
+    return None
+
+
 def classify_name_error(spec, problems):
     """Shared by every check that executes programs: map a NameError to KF-5 /
     KF-7 when (and only when) the mechanism matches."""
     for p in problems:
         if p.get("kind") == "exec-error" and p.get("etype") in ("NameError", "UnboundLocalError"):
-            n = name_error_name(p.get("error"))
-            if kf5_unbound_level_size(spec, n):
-                return "KF-5"
-            if kf7_unbound_offset(spec, n):
-                return "KF-7"
+            k = name_kf(spec, name_error_name(p.get("error")))
+            if k:
+                return k
     return None
 
 
